@@ -119,6 +119,10 @@ type H struct {
 	IgnoreMissing bool    `json:"ignore_missing,omitempty"`
 	Filter        []bool  `json:"filter,omitempty"` // per child: accepted by the ChildFilter; nil = no filter option
 	Shuffle       uint64  `json:"shuffle,omitempty"`
+	// Stale > 0: every input parent version already carries that many stale updates (left over
+	// from an earlier annotation against another history / other options). What the input
+	// carried never changes what annotation has to produce.
+	Stale int `json:"stale,omitempty"`
 	// TickNs is the unit of every time value of the model (Sec, Lag, MixSec) in nanoseconds:
 	// 0 or 1e9 = whole seconds, 1e6 = milliseconds, 1 = nanoseconds (sub-second instants).
 	TickNs int64 `json:"tick_ns,omitempty"`
@@ -216,9 +220,27 @@ func (h *H) BuildWays() osm.Ways {
 			}
 			w.Nodes = append(w.Nodes, wn)
 		}
+		w.Updates = h.staleUpdates(p, len(p.Refs))
 		ws = append(ws, w)
 	}
 	return ws
+}
+
+// staleUpdates are the left-over updates an already annotated input carries.
+func (h *H) staleUpdates(p PVer, nrefs int) osm.Updates {
+	if h.Stale <= 0 {
+		return nil
+	}
+	var us osm.Updates
+	for k := 0; k < h.Stale; k++ {
+		idx := 0
+		if nrefs > 0 {
+			idx = (k*7 + p.Version) % nrefs
+		}
+		us = append(us, osm.Update{Index: idx, Version: PreVersion + 500 + k, Timestamp: h.At(p.Sec + int64(k+1)*977*h.TPS()),
+			ChangesetID: PreChangeset + 1, Lat: PreLat - 1, Lon: PreLon + 1, Reverse: k%2 == 1})
+	}
+	return us
 }
 
 // BuildRelations returns a fresh input for annotate.Relations.
@@ -245,13 +267,44 @@ func (h *H) BuildRelations() osm.Relations {
 			}
 			r.Members = append(r.Members, m)
 		}
+		r.Updates = h.staleUpdates(p, len(p.Refs))
 		rs = append(rs, r)
 	}
 	return rs
 }
 
 // Options returns the annotate options of the history (the filter observes its calls).
-func (h *H) Options() []annotate.Option {
+func (h *H) Options() []annotate.Option { return h.OptionsShared(nil) }
+
+// SharedFilter is one ChildFilter option VALUE that is built once and then reused for many
+// calls: before each call Use points it at the verdicts of the history about to be annotated
+// (the documented use of the filter: "children updated in the same batch" - the batch, and
+// with it the verdict for a child, changes from call to call).
+type SharedFilter struct {
+	Opt annotate.Option
+	acc map[osm.FeatureID]bool
+}
+
+// NewSharedFilter builds the option value once.
+func NewSharedFilter() *SharedFilter {
+	sf := &SharedFilter{}
+	sf.Opt = annotate.ChildFilter(func(id osm.FeatureID) bool { return sf.acc[id] })
+	return sf
+}
+
+func (h *H) accepted() map[osm.FeatureID]bool {
+	acc := map[osm.FeatureID]bool{}
+	for i := range h.Children {
+		if h.Filter[i] {
+			acc[h.Children[i].FID()] = true
+		}
+	}
+	return acc
+}
+
+// OptionsShared is Options; when the history has a filter and sf is not nil, the reused
+// option value sf is passed instead of a freshly built ChildFilter option.
+func (h *H) OptionsShared(sf *SharedFilter) []annotate.Option {
 	var o []annotate.Option
 	if !h.EpsDefault {
 		o = append(o, annotate.Threshold(time.Duration(h.Eps)*time.Second))
@@ -263,13 +316,13 @@ func (h *H) Options() []annotate.Option {
 		o = append(o, annotate.IgnoreMissingChildren(true))
 	}
 	if h.Filter != nil {
-		acc := map[osm.FeatureID]bool{}
-		for i := range h.Children {
-			if h.Filter[i] {
-				acc[h.Children[i].FID()] = true
-			}
+		if sf != nil {
+			sf.acc = h.accepted()
+			o = append(o, sf.Opt)
+		} else {
+			acc := h.accepted()
+			o = append(o, annotate.ChildFilter(func(id osm.FeatureID) bool { return acc[id] }))
 		}
-		o = append(o, annotate.ChildFilter(func(id osm.FeatureID) bool { return acc[id] }))
 	}
 	return o
 }
@@ -564,7 +617,13 @@ func (h *H) ExecuteChildren() *Run {
 
 // ExecuteOnWith is ExecuteOn; asChildren selects the children configuration of the datasource.
 func (h *H) ExecuteOnWith(ways osm.Ways, rels osm.Relations, asChildren bool) (run *Run) {
+	return h.ExecuteOnOpts(ways, rels, asChildren, nil)
+}
+
+// ExecuteOnOpts is ExecuteOnWith; sf (may be nil) is a reused ChildFilter option value.
+func (h *H) ExecuteOnOpts(ways osm.Ways, rels osm.Relations, asChildren bool, sf *SharedFilter) (run *Run) {
 	run = &Run{Ways: ways, Relations: rels}
+	opts := h.OptionsShared(sf)
 	ds := h.Datasource()
 	var wds annotate.NodeHistoryDatasourcer = ds
 	var rds osm.HistoryDatasourcer = ds
@@ -579,9 +638,9 @@ func (h *H) ExecuteOnWith(ways osm.Ways, rels osm.Relations, asChildren bool) (r
 		run.NCalls = len(ds.Calls)
 	}()
 	if h.Way {
-		run.Err = annotate.Ways(context.Background(), run.Ways, wds, h.Options()...)
+		run.Err = annotate.Ways(context.Background(), run.Ways, wds, opts...)
 	} else {
-		run.Err = annotate.Relations(context.Background(), run.Relations, rds, h.Options()...)
+		run.Err = annotate.Relations(context.Background(), run.Relations, rds, opts...)
 	}
 	return run
 }
@@ -669,6 +728,9 @@ func (h *H) Features() []string {
 			}
 			if r.Loc {
 				set["location-only"] = true
+			}
+			if h.Stale > 0 {
+				set["stale-updates"] = true
 			}
 		}
 	}
